@@ -11,15 +11,21 @@ MCWUCore  == {0, 12, 300000, 399960, 600000, 1800000}
 MCWUSmall == {0, 300000}
 MCWUMid   == {0, 12, 600000}
 MCWCNone  == {}
-MCWCSmall == {12, 600000, 1800000}
-MCWCFull  == {0, 12, 300000, 399960, 600000, 1200000, 1800000}
+MCWCSmall == {0, 12, 600000, 1800000}
+MCWCFull  == {-600000, 0, 12, 300000, 399960, 600000, 1200000, 1800000}
+MCWCReset == {-600000, 0, 600000}
+MCTags2 == {{}, {"t1"}}
 MCSvc1 == {"A"}
 MCSvc2 == {"A", "B"}
 MCTags1 == {{}}
 MCTags3 == {{}, {"t1"}, {"t1", "t2"}}
 
-\* a table configuration is examined once, from the first script that reaches it
-View == <<tg, pc>>
+\* The implementation is stateful (every command re-weighs the route), so the same final
+\* configuration reached from different `route add` lines is NOT the same case: the view keeps
+\* the targets as added.  Scripts with the same start and the same result are examined once
+\* (View); the reset universe (weight > 0 then weight 0 / negative, ...) is generated without
+\* a view, i.e. every script is a case.
+View == <<tg0, tg, pc>>
 
 TargetJson(t) == [i \in 1..Len(t) |-> [svc |-> t[i].svc, tags |-> t[i].tags, k |-> t[i].k]]
 CaseJson ==
